@@ -508,6 +508,33 @@ func RunJob(j Job, keepSSA bool) (a Artefacts) {
 			a.Circ = "changed-after-return:" + sum(again.Bytes())
 		}
 		rt.Reach("job.circuit-kept-across-another-compilation")
+		// ... and the circuit belongs to the caller: after it edited gates and signature in place,
+		// the same Compiler compiles the same program to the same bytes as before
+		if a.Err == "" && !strings.HasPrefix(a.Circ, "changed") {
+			for i := range circ.Gates {
+				circ.Gates[i].Input0, circ.Gates[i].Output = 0, 0
+			}
+			for _, io := range []circuit.IO{circ.Inputs, circ.Outputs} {
+				for i := range io {
+					io[i].Name += "~"
+					io[i].Type.Bits += 5
+					if io[i].Type.ElementType != nil {
+						io[i].Type.ElementType.Bits += 3
+					}
+					for k := range io[i].Compound {
+						io[i].Compound[k].Type.Bits++
+					}
+				}
+			}
+			if c4, err := run(); err == nil {
+				var mb4 bytes.Buffer
+				if err := c4.Marshal(&mb4); err != nil || sum(mb4.Bytes()) != a.Circ {
+					a.Circ = "differs-after-the-caller-edited-the-first-result:" + sum(mb4.Bytes())
+				}
+			} else {
+				a.Err = "compilation after the caller edited the first result: " + err.Error()
+			}
+		}
 	}
 	if keepSSA {
 		a.SSAText = ssa.String()
